@@ -21,4 +21,4 @@ def get_supported_devices():
 
 
 def get_supported_device_labels():
-    return supported_devices_cfg
+    return dict(supported_devices_cfg)
